@@ -6,5 +6,5 @@ gvars == <<vars, hist>>
 GInit == Init /\ hist = <<out>>
 GNext == Next /\ hist' = Append(hist, out')
 GSpec == GInit /\ [][GNext]_gvars
-Emit == n = MaxCalls => PrintT(ToJson(hist))
+Emit == n = MaxCalls => PrintT(ToJson(hist))   \* (no store change is offered after the last call)
 =============================================================================
